@@ -170,6 +170,26 @@ pub fn c15() -> i32 {
             }
         }
     }
+    // round trips longer than the 200 ms quality-report interval (a reply then arrives after the
+    // next report was sent): level peers and small leads, wide window
+    for &fps in &fpss {
+        for lat in [7, 9, 13] {
+            for lead in [0i32, 2, -3] {
+                let mut s = base_scn("c15-long-rtt", "1+1", 40, 0, false, Pred::RepeatLast, Program::Changing, lat);
+                s.fps = fps;
+                s.round_us = 1_000_000 / fps as u64;
+                let follower = if lead >= 0 { 1 } else { 0 };
+                for i in 0..lead.abs() {
+                    s.scripted_stalls.push((follower, 2 + i));
+                }
+                s.name = format!("{} fps={fps} lead={lead} pattern=0", s.name);
+                s.horizon = 0;
+                s.probe = 12 * fps as i32;
+                s.checks = CK_C02 | CK_STATS;
+                scns.push(s);
+            }
+        }
+    }
     // errors before numbers
     for fps in [60usize, 30] {
         for lat in [0, 2] {
